@@ -18,7 +18,7 @@ Expected(i) ==
     [] i.kind = "bins" -> [res |-> "ok", bins |-> Bins(i.T, i.E), exact |-> TRUE]
     [] i.kind = "occ" -> [res |-> "ok", exact |-> TRUE, obins |-> IF i.occ = 1 THEN Bins(i.T, i.Eo) ELSE Zeros(Len(i.Eo) + 1),
                           ubins |-> IF i.occ = 0 THEN Bins(i.T, i.Eu) ELSE Zeros(Len(i.Eu) + 1)]
-    [] i.kind = "how" -> [res |-> "ok", how |-> 24 * i.dow + i.hour]
+    [] i.kind = "how" -> [res |-> "ok", how |-> 24 * i.dow + i.hour, n |-> 1]
 Init ==
   /\ \/ \E t \in Types, y \in Years, m \in 1..12, z \in Zones : in = [kind |-> "weights", type |-> t, y |-> y, m |-> m, tz |-> z]
      \/ \E y \in Years, m \in 1..12, z \in Zones, f \in {"all", "djf"} : in = [kind |-> "route", y |-> y, m |-> m, tz |-> z, fit |-> f]
@@ -26,7 +26,7 @@ Init ==
      \/ \E o \in {0, 1}, T \in Temps, Eo \in SortedSubseqs, Eu \in SortedSubseqs :
           /\ Len(Eo) + Len(Eu) <= 4
           /\ in = [kind |-> "occ", occ |-> o, T |-> T, Eo |-> Eo, Eu |-> Eu]
-     \/ \E d \in 0..6, h \in 0..23 : in = [kind |-> "how", dow |-> d, hour |-> h]
+     \/ \E d \in 0..6, h \in 0..23, w \in HowWeeks : in = [kind |-> "how", dow |-> d, hour |-> h, wk |-> w]
   /\ out = [res |-> "pending"] /\ pc = "call"
 Call == pc = "call" /\ out' = Expected(in) /\ pc' = "done" /\ UNCHANGED in
 Next == Call
